@@ -7,7 +7,7 @@ R2 verify before mark: both assignments are unreachable unless the true edge of
 R3 at most once: from the marking, every path to an Ok return clears challenge_for_peer; issued challenges come from generate_random_bytes
 """
 from .. import gate
-from ..expr import Chaser, call_name, has_call, has_field, show, walk
+from ..expr import Chaser, call_name, has_call, has_field, show, strip, walk
 from ..fields import FieldAnalysis, place_has_field
 from ..paths import Explorer, describe_path
 from ..report import Finding, Result
@@ -132,9 +132,20 @@ def run(prog, tier, extra=None):
         if e[0] != "call" or e[1] != CORE + "util::crypto::verify" or len(e[2]) != 3:
             return False
         c, sig, key = e[2]
-        return (has_field(c, "peer::Peer", "challenge_for_peer") and has_field(sig, "HandshakeResponse", "signature")
-                and has_field(key, "HandshakeResponse", "public_key"))
+        k = strip(key)
+        while k[0] in ("ref", "deref"):
+            k = strip(k[1])
+        # the key argument is the response's key itself, not a value merely computed from it (`self.public_key.unwrap_or(response.public_key)`
+        # verifies under the key the entry is already bound to while the response's key gets recorded)
+        exact = k[0] == "field" and k[3] == "public_key" and k[2].endswith("HandshakeResponse")
+        if not exact and has_field(c, "peer::Peer", "challenge_for_peer") and has_field(sig, "HandshakeResponse", "signature"):
+            other_key.append(show(key)[:80])
+        return (has_field(c, "peer::Peer", "challenge_for_peer") and has_field(sig, "HandshakeResponse", "signature") and exact)
+    other_key = []
     ver = gate.bool_switch_edges(hb, ch, is_verify)
+    if other_key and not ver["sites"]:
+        res.add(Finding(R2, "C17.verify-before-mark|other-key", "handle_handshake_response verifies the challenge signature under `%s`, not under the key the response claims and the peer "
+                        "is then recorded with: a connection can be bound to a key that never signed its challenge" % other_key[0], hb.loc(0)))
     own = [(b, bb, kind, e) for (b, bb, kind, e) in marks if b.path == HR]
     if not ver["sites"]:
         res.add(Finding(R2, "C17.verify-before-mark|no-verify", "handle_handshake_response has no switch on verify(self.challenge_for_peer, response.signature, response.public_key)", hb.loc(0)))
